@@ -31,7 +31,11 @@ EXPLANATION = (
     "(order abstract interpretation: iteration of self.elements is parents-first because _append stores a token only once it is chained, "
     "a walk along previous_token_hash is child-first when collected by appending and parents-first when collected by prepending, "
     "reversed / [::-1] / reverse() flip, join / map / comprehensions / copies and followed helper generators keep the order), so a reload "
-    "never parks more tokens than the bounded waiting area holds. Permutations are not enumerated."
+    "never parks more tokens than the bounded waiting area holds. The tree's key (which roots the genesis hash and checks every signature) is "
+    "stored in TokenTree.__init__ only as `<key>.pub()` - a key object kept as given may be a private key (a subclass of the public key) whose "
+    "serialisation gives another genesis. A `match` whose guards read the names its pattern captured is rewritten with the captures replaced by the "
+    "subject parts they name (only when no other code reads those names); a function whose view still holds a `match` that could not be "
+    "rewritten exactly is undecided wherever a rule fails in it, never a finding. Permutations are not enumerated."
 )
 
 TR = "ipv8/attestation/tokentree/tree.py"
@@ -2674,10 +2678,16 @@ class _Deep:
             if r is None:
                 return None
             cond, caps = r
-            if c.guard is not None and caps:
-                return None
-            if c.guard is not None:
-                cond = c.guard if cond is None else ast.BoolOp(op=ast.And(), values=[cond, c.guard])
+            guard = c.guard
+            if guard is not None and caps:
+                # the guard reads what the pattern captured: every capture names a part of the subject that is a plain local / temporary
+                # here, so the guard over those parts is the same test - provided nothing but this case reads the names it binds
+                # (Python leaves the captures of a case whose guard failed bound: a later reader would see them)
+                guard = self._guard_over_subject(st, c, caps)
+                if guard is None:
+                    return None
+            if guard is not None:
+                cond = guard if cond is None else ast.BoolOp(op=ast.And(), values=[cond, guard])
             arms.append((cond, [ast.copy_location(ast.Assign(targets=[ast.Name(id=k, ctx=ast.Store())], value=v), c.body[0]) for k, v in caps] + c.body))
         chain_: list = []
         for cond, body in reversed(arms):
@@ -2689,6 +2699,34 @@ class _Deep:
                 if isinstance(y, ast.Call) and not hasattr(y, "_stk"):
                     y._stk = ()
         return out
+
+    def _guard_over_subject(self, st: ast.Match, case: ast.match_case, caps: list) -> ast.AST | None:
+        """the guard of `case` with the names its pattern captured replaced by the subject parts they name, or None if that is not exact"""
+        mapping: dict[str, ast.AST] = {}
+        callfree = not any(isinstance(x, (ast.Call, ast.NamedExpr, ast.Subscript, ast.BinOp, ast.Await)) or
+                           (isinstance(x, ast.Compare) and not all(isinstance(o, (ast.Is, ast.IsNot)) for o in x.ops)) for x in ast.walk(case.guard))
+        for k, v in caps:
+            # a plain local / temporary is the captured value itself; an attribute of the subject (class pattern) is read when captured and
+            # again by the rewritten guard: the same value if nothing runs in between (a guard of identity tests over names / attributes)
+            if k in mapping or not (isinstance(v, (ast.Name, ast.Constant)) or (callfree and _pure_simple(v) and not isinstance(v, ast.Tuple))):
+                return None
+            mapping[k] = v
+        touched = set(mapping) | {v.id for v in mapping.values() if isinstance(v, ast.Name)}
+        if _stored_names([case.guard]) & touched or any(isinstance(x, (ast.Await, ast.Yield, ast.YieldFrom)) for x in ast.walk(case.guard)):
+            return None
+        # every reader of a captured name sits in a case (of this statement) that captures the name itself
+        covered: set[int] = set()
+        for c in st.cases:
+            bound = {x.name for x in ast.walk(c.pattern) if isinstance(x, (ast.MatchAs, ast.MatchStar)) and x.name} | \
+                    {x.rest for x in ast.walk(c.pattern) if isinstance(x, ast.MatchMapping) and x.rest}
+            for part in ([c.guard] if c.guard is not None else []) + list(c.body):
+                for x in ast.walk(part):
+                    if isinstance(x, ast.Name) and x.id in bound:
+                        covered.add(id(x))
+        for x in [*ast.walk(self.fn), *ast.walk(st)]:
+            if isinstance(x, ast.Name) and x.id in mapping and not isinstance(x.ctx, ast.Store) and id(x) not in covered:
+                return None
+        return _Sub(mapping).visit(_cl(case.guard))
 
     def _match_case(self, st: ast.Match) -> list | None:
         """the body selected by a `match` on a constant subject (value / singleton / wildcard patterns only)"""
@@ -2896,6 +2934,7 @@ def _view(ctx: Ctx, fi: FuncInfo, *, assume_none: tuple[str, ...] = (), assume_s
     key = (id(fi.node), assume_none, assume_set)
     hit = _VIEWS.get(key)
     if hit is not None and hit[0] is fi.node:
+        _note_residual(ctx, hit[1])
         return hit[1]
     if len(_VIEWS) > 200:
         _VIEWS.clear()
@@ -2906,7 +2945,19 @@ def _view(ctx: Ctx, fi: FuncInfo, *, assume_none: tuple[str, ...] = (), assume_s
     except (RecursionError, Exception) as e:  # noqa: BLE001
         raise AnalysisError(f"undecided: no view of {fi.qualname} could be built ({type(e).__name__}: {e})") from e
     _VIEWS[key] = (fi.node, v)
+    _note_residual(ctx, v)
     return v
+
+
+def _note_residual(ctx: Ctx, v: FuncInfo) -> None:
+    """a `match` statement that could not be rewritten exactly into the tests Python executes for it stays in the view: the CFG then knows
+    nothing about which case runs when, so a rule that FAILS inside such a function has not decided anything (see run)"""
+    res = getattr(v, "residual_match", None)
+    if res is None:
+        res = any(isinstance(x, ast.Match) for x in ast.walk(v.node))
+        v.residual_match = res               # type: ignore[attr-defined]
+    if res:
+        ctx.__dict__.setdefault("_c16_residual", set()).add(v.qualname)
 
 
 def _instance_tables(cls) -> dict[str, ast.AST]:
@@ -3483,6 +3534,59 @@ def rule_writers(ctx: Ctx) -> None:
     gh = [s for s, t in stores(gi, "self.genesis_hash")]
     ok = bool(gh) and all(isinstance(s, (ast.Assign, ast.AnnAssign)) and norm(_hashed(gi, s.value)) == "self.public_key.key_to_bin()" for s in gh)
     ctx.check(ok, "writers", gi, gi.node, "genesis hash = sha3_256(public key)", "the genesis pointer is not the hash of the tree's key")
+    # the key that roots the tree (genesis hash) and checks every signature is the PUBLIC PART of whatever key object was handed in
+    keyed = 0
+    for st, t in stores(gi, "self.public_key"):
+        v = None
+        if isinstance(st, ast.Assign) and any(x is t for x in st.targets):
+            v = st.value
+        elif isinstance(st, ast.AnnAssign) and st.target is t:
+            v = st.value
+        elif isinstance(st, ast.Assign) and len(st.targets) == 1 and isinstance(st.targets[0], (ast.Tuple, ast.List)) and isinstance(st.value, (ast.Tuple, ast.List)) and \
+                len(st.targets[0].elts) == len(st.value.elts) and not any(isinstance(x, ast.Starred) for x in [*st.targets[0].elts, *st.value.elts]):
+            v = next((b for a, b in zip(st.targets[0].elts, st.value.elts) if a is t), None)
+        r = _public_part(gi, v) if v is not None else None
+        if r is None:
+            raise AnalysisError(f"undecided: TokenTree.__init__ sets the tree's key by `{norm(st)[:60]}`; whether that is the public part of the given key is not derived")
+        keyed += 1
+        ctx.check(r, "writers", gi, st, "the tree's key is the public part (.pub()) of the key object it was given",
+                  f"TokenTree.__init__ keeps the key object it was given as the tree's key (`{norm(st)[:60]}`) instead of its public part: a private key IS a "
+                  "public key (subclass), so a view made from a key that still carries its secret part derives genesis_hash from the secret key's "
+                  "serialisation - the view is rooted at another genesis than the owner's chain and every signed, connected token of the owner is parked as dangling")
+    ctx.floor("writers.tree-key", keyed, 1)
+
+
+def _public_part(fi: FuncInfo, e: ast.AST | None, depth: int = 6) -> bool | None:
+    """True: e is `<key>.pub()` on every path; False: on some path e is a key object as it was handed in (a parameter / self.private_key);
+    None: not derived"""
+    if e is None or depth <= 0:
+        return None
+    e = strip_cast(e)
+    if isinstance(e, ast.NamedExpr):
+        return _public_part(fi, e.value, depth - 1)
+    if isinstance(e, ast.Call):
+        if isinstance(e.func, ast.Attribute) and e.func.attr == "pub" and not e.args and not e.keywords:
+            return True
+        return None
+    if isinstance(e, (ast.IfExp, ast.BoolOp)):
+        rs = [_public_part(fi, x, depth - 1) for x in ([e.body, e.orelse] if isinstance(e, ast.IfExp) else e.values)]
+        return False if any(r is False for r in rs) else None if any(r is None for r in rs) else True
+    if isinstance(e, ast.Attribute):
+        return False if chain(e) == "self.private_key" else None
+    if isinstance(e, ast.Name):
+        if is_param(fi, e.id) and not local_defs(fi, e.id):
+            return False
+        r = _reaching(fi, e)
+        if not r:
+            return None
+        out: list = []
+        for st, v, k in r:
+            if v is not None and k is not None:
+                v = strip_cast(v)
+                v = v.elts[k] if isinstance(v, (ast.Tuple, ast.List)) and k < len(v.elts) and not any(isinstance(x, ast.Starred) for x in v.elts) else None
+            out.append(_public_part(fi, v, depth - 1))
+        return False if any(x is False for x in out) else None if any(x is None for x in out) else True
+    return None
 
 
 def _unwrap_iter(fi: FuncInfo, e: ast.AST) -> ast.AST:
@@ -5285,6 +5389,11 @@ def run(ctx: Ctx) -> None:
         rule_dump_order(ctx)
     finally:
         ctx.repo = normalised
+    residual = getattr(ctx, "_c16_residual", set())
+    blind = sorted({f.at.partition(":")[2] for f in ctx.findings if f.at.partition(":")[2] in residual})
+    if blind:
+        raise AnalysisError("undecided: " + ", ".join(blind) + " keeps a `match` statement whose patterns / guards could not be turned exactly into the tests "
+                            "Python executes for them; which case runs under which condition is unknown there, so the failed rule(s) decide nothing")
     ctx.assume("order independence follows from: acceptance of a token depends only on (signature, parent contained); every waiting child is woken when its parent arrives; "
                "the waiting area does not overflow (stated precondition). It is argued, not enumerated.")
     ctx.assume("signature primitive and sha3_256 are sound (trusted)")
@@ -5340,6 +5449,9 @@ WITNESSES = [
     {"name": "foreign writer of elements", "file": "ipv8/attestation/identity/manager.py", "rule": "writers",
      "old": "        preceding = None if after is None else self.tree.elements.get(after.token_pointer, None)",
      "new": "        preceding = None if after is None else self.tree.elements.get(after.token_pointer, None)\n        if after is not None and preceding is None:\n            self.tree.elements[after.token_pointer] = preceding = Token(self.tree.genesis_hash, content_hash=after.token_pointer, signature=b\"\")"},
+    {"name": "view keeps the given key object instead of its public part (a private key is a public key: other genesis)", "file": TR, "rule": "writers",
+     "old": "            self.public_key = public_key.pub()\n            self.private_key = None",
+     "new": "            self.public_key = public_key\n            self.private_key = None"},
     {"name": "chunk size off", "file": TR, "rule": "wire-chunks",
      "old": "        chunk_size = 64 + sig_len", "new": "        chunk_size = 32 + sig_len"},
     {"name": "root path skips signature check", "file": TR, "rule": "wire-chunks",
